@@ -391,6 +391,8 @@ func (p *processor) isMatchAnd(conds MatchConditions, event *Event, byPrefix boo
 			if !match {
 				return false
 			}
+			// a regexp condition has no values to look up: it is satisfied by the regexp
+			continue
 		}
 
 		match = cond.valueExists(value, byPrefix)
